@@ -128,12 +128,12 @@ mutual
         if op = S "last" then pure (.s (S "the " ++ op ++ S " " ++ ty ++ S " of " ++ t.str))
         else pure (.s (S "the " ++ op ++ S " of " ++ ty ++ S "s of " ++ t.str))
       | none => pure (.s (S "the " ++ op ++ S " of " ++ t.str))
-    | .propAcc _ obj prop, ind => do
+    | .propAcc _ obj prop ex, ind => do
       let t ← lingo false obj ind
       if t == Name.s (S "me") ∧ obj.cls = .leaf .node then pure (.s prop)      -- `type(self.obj) is Node`
       else do
         let os ← t.asStr
-        if startsWith os (S "_") ∨ os = S "tell_obj" then pure (.s (S "the " ++ prop))
+        if !ex ∧ (startsWith os (S "_") ∨ os = S "tell_obj") then pure (.s (S "the " ++ prop))      -- F142
         else pure (.s (S "the " ++ prop ++ S " of " ++ os))
     | .keyAcc _ prop, _ => .ok (.s (S "the " ++ prop))
     | .menuItemAcc _ menu item, _ => do
@@ -274,7 +274,7 @@ mutual
     | .spAssign p l r m => .spAssign p (afterLingo l) (afterLingo r) m
     | .strOp k p a b c => .strOp k p (afterLingo a) (afterLingo b) (afterLingo c)
     | .unaryStr op p t x => .unaryStr op p t (afterLingo x)
-    | .propAcc p o pr => .propAcc p (afterLingo o) pr
+    | .propAcc p o pr ex => .propAcc p (afterLingo o) pr ex
     | .keyAcc p pr => .keyAcc p pr
     | .menuItemAcc p m i => .menuItemAcc p (afterLingo m) (afterLingo i)
     | .menuItemsAcc p m => .menuItemsAcc p (afterLingo m)
